@@ -131,6 +131,21 @@ Theorem C12_pinned_row_update2_refuted :
 Proof. exact ru2_pinned_refuted. Qed.
 Print Assumptions C12_pinned_row_update2_refuted.
 
+(** what a decoded monitor request selects: absent members (and an absent select) stand for "yes" *)
+Theorem C12_request_without_select_selects_every_kind : forall fuel o m,
+  obj_get o s_select = None -> dec_monreq fuel (GObj o) = Ok m -> sel_kinds (mr_select m) = (true, true, true, true).
+Proof. exact monreq_without_select_selects_all. Qed.
+Print Assumptions C12_request_without_select_selects_every_kind.
+
+Theorem C12_select_member_decides_its_kind : forall o s,
+  dec_select (GObj o) = Ok s ->
+  (forall b, obj_get o s_initial = Some (GBool b) -> sel_flag (ms_initial s) = b) /\
+  (obj_get o s_initial = None -> sel_flag (ms_initial s) = true) /\
+  (forall b, obj_get o s_modify = Some (GBool b) -> sel_flag (ms_modify s) = b) /\
+  (obj_get o s_modify = None -> sel_flag (ms_modify s) = true).
+Proof. exact select_member_decides_its_kind. Qed.
+Print Assumptions C12_select_member_decides_its_kind.
+
 Theorem C12_message_hypotheses_satisfiable :
   wf_tables wf_ru [(70%N, [(71%N, Some (mkWRu (Some [(72%N, GSet [GUuid 73%N; GUuid 74%N])]) (Some [(72%N, GSet [])]))); (75%N, None)])] = true
   /\ wf_tables wf_ru2 [(70%N, [(71%N, Some (mkWRu2 None None (Some [(72%N, GMap [(GStr 76%N, GNum 3 1)])]) None)); (75%N, Some (mkWRu2 None None None (Some [])))])] = true
